@@ -259,6 +259,22 @@ Check C15_setter_tree : forall c s arg v cs f raw, row_field s arg = Some f ->
     end.
 Print Assumptions C15_setter_tree.
 
+(* ... and a setter called through a paragraph handle is that operation on the n-th paragraph of the
+   document tree (on_para): every other child of the root — other paragraphs, blank lines, comments
+   between paragraphs — is untouched (C04's document frame, restated for a setter) *)
+Theorem C15_document_frame : forall c s arg v t n,
+  (exists A P B, children t = A ++ P :: B /\ is_paragraph P = true /\ length (filter is_paragraph A) = n /\
+     forall cs', setter c TI s arg v (children P) = Ok cs' ->
+       on_para t n (fun _ => cs') = Node ROOT (A ++ Node PARAGRAPH cs' :: B)) \/
+  (length (filter is_paragraph (children t)) <= n).
+Proof. exact setter_document_frame. Qed.
+Check C15_document_frame : forall c s arg v t n,
+  (exists A P B, children t = A ++ P :: B /\ is_paragraph P = true /\ length (filter is_paragraph A) = n /\
+     forall cs', setter c TI s arg v (children P) = Ok cs' ->
+       on_para t n (fun _ => cs') = Node ROOT (A ++ Node PARAGRAPH cs' :: B)) \/
+  (length (filter is_paragraph (children t)) <= n).
+Print Assumptions C15_document_frame.
+
 (* ... hence, on every live document (LiveDoc.lwf: every parsed well-formed document, every document
    built from canonical pairs, closed under the edits — C04) and for a written text in C04's
    domain (canon_kv: valid name, non-empty lines without LF/CR that do not begin with a blank,
